@@ -805,6 +805,10 @@ static const struct rx XDS[] = {
         { K_XCALL, .str = "KNBC", .name = "XDS call 'KNBC'" },
         { K_TTX, .name = "TTX(page 201)" },
         { K_EMPTY, .name = "empty frame" },
+        /* names and call letters that are proper prefixes / extensions of each other (phase xds-prefix) */
+        { K_XNAME, .str = "ABCD", .name = "XDS name 'ABCD'" },
+        { K_XNAME, .str = "AB", .name = "XDS name 'AB'" },
+        { K_XCALL, .str = "WAB", .name = "XDS call 'WAB'" },
 };
 enum { NXDS = sizeof XDS / sizeof XDS[0] };
 
@@ -815,6 +819,7 @@ static const struct cfg CFGS[] = {
         { "pal-wss", 0, 7,  { 0,2,13,14,15,16,17 },                          { 18, 18 } },
         { "pal-gap", 0, 5,  { 0,2,18,19,16 },                                { 10, 16 } },
         { "xds",     1, 8,  { 0,1,2,3,4,5,6,7 },                             { 12, 12 } },
+        { "xds-prefix", 1, 7, { 8,0,9,4,10,6,7 },                            { 10, 12 } },
 };
 
 static const char *letter_name(int l, void *arg)
